@@ -551,7 +551,7 @@ Ref World::apply_names_types(const Op& op)
       const ipr::Type* tp = &T(op.a[1]);
       // a Forall prints the body of a user-defined target in place: such a target is sealed (see can_seal_as_body)
       if (Rec* tr = rec(nref(*tp)); tr != nullptr and is_udt_category(tr->exp.cat)) {
-         if (sealed_bodies.count(nref(*tp)) == 0 and not can_seal_as_body(*tp, step)) tp = &L.int_type();
+         if (sealed_bodies.count(nref(*tp)) == 0 and not can_seal_as_body(*tp, next_seq + 1)) tp = &L.int_type();
          else sealed_bodies.insert(nref(*tp));
       }
       const ipr::Type& t = *tp;
